@@ -286,6 +286,8 @@ def _ev(fn_node: ast.AST, e: ast.AST, env: dict[str, object], depth: int, dsn_cl
 				return list(range(*args))
 			except ValueError:
 				return RAISES
+		if fn == 'bool' and len(args) == 1 and not kwargs and isinstance(args[0], (str, int, list, tuple)):
+			return bool(args[0])
 		if fn in ('reversed', 'list', 'tuple') and len(args) == 1 and not kwargs and isinstance(args[0], (list, tuple)):
 			return list(reversed(args[0])) if fn == 'reversed' else list(args[0])
 		if fn in ('max', 'min') and len(args) >= 2 and not kwargs and all(isinstance(a, int) for a in args):
